@@ -77,3 +77,20 @@ contract(f"{_RWS}.__init__",
          name=f"{_RWS}.__init__#flow-body", raises={"Exception": None, "ValueError": None}, assigns=writes("self.*"),
          ensures=[("stores-flow-specification", lambda E: And(E.self.flow_type == E.flow_type, E.self.V_flow == E.v_flow))], returns=NoneT()).applies = lambda env: False
 FIND_DESIGN_FLOW.append(f"{_RWS}.__init__#flow-body")
+
+# ---- the borehole object: GHEBorehole.__init__ hands height, burial depth and radius, in this order, to pygfunction's Borehole ------------------------------
+_BHQ = "ghedesigner.borehole:GHEBorehole"
+contract("pygfunction.boreholes:Borehole.__init__", dict(self=ObjOf(_BHQ), H=Real, D=Real, r_b=Real, x=Real, y=Real, tilt=Real, orientation=Real),
+         assigns=[((lambda P, k=k: (P.self, k)), AliasOf(lambda P, k=k: getattr(P, k))) for k in ("H", "D", "r_b", "x", "y")], returns=NoneT(),
+         notes="ASSUMED (external, pygfunction 2.2 source): Borehole.__init__(H, D, r_b, x, y, tilt, orientation) stores its arguments under these names")
+contract(f"{_BHQ}.__init__", dict(self=ObjOf(_BHQ), height=Real, buried_depth=Real, radius=Real, x=Real, y=Real), name=f"{_BHQ}.__init__#body",
+         ensures=[("height-depth-radius-stored-under-H-D-r_b", lambda E: And(E.self.H == E.height, E.self.D == E.buried_depth, E.self.r_b == E.radius, E.self.x == E.x, E.self.y == E.y))],
+         assigns=writes("self.*"), returns=NoneT()).applies = lambda env: False
+contract(f"{_BHQ}.__init__", dict(self=ObjOf(_BHQ), height=Real, buried_depth=Real, radius=Real, x=Real, y=Real), name=f"{_BHQ}.__init__#caller",
+         assigns=[((lambda P, k=k: (P.self, k)), AliasOf(lambda P, a=a: getattr(P, a))) for k, a in (("H", "height"), ("D", "buried_depth"), ("r_b", "radius"), ("x", "x"), ("y", "y"))],
+         returns=NoneT(), notes="caller view of the verified body").applies = lambda env: True
+_MGRQ = "ghedesigner.manager:GHEManager"
+contract(f"{_MGRQ}.set_borehole", dict(self=ObjOf(_MGRQ, _borehole=NoneT()), height=Real, buried_depth=Real, diameter=Real), name=f"{_MGRQ}.set_borehole#body",
+         ensures=[("borehole-from-height-depth-and-half-the-diameter", lambda E: And(E.self._borehole.H == E.height, E.self._borehole.D == E.buried_depth, E.self._borehole.r_b == E.diameter / 2, E.result == 0))],
+         assigns=writes("self._borehole"), returns=Int).applies = lambda env: False
+BOREHOLE = [f"{_BHQ}.__init__#body", f"{_MGRQ}.set_borehole#body"]
